@@ -508,7 +508,7 @@ package leader
 //@   on store kvElection.revision set e.revSet = true
 //@   ghost revStoredHere Bool = false
 //@   on store kvElection.revision set revStoredHere = true
-//@   on store kvElection.isLeader as s when s.value assert C07+C05+C02.claim_published_last: tokStored && revStoredHere
+//@   on store kvElection.isLeader as s when s.value assert C07+C05+C02+C10.claim_published_last: tokStored && revStoredHere
 //@   on call onPromote as c assert C05.promote_gets_published_token: c.arg1 == token
 //@   on load kvElection.ctx assert C19+C09.election_ctx_read_under_lock: held(e.mu) >= 1
 //@   on call onPromote as c assert C19.derived_from_election_ctx: origin(c.arg0, "ctx:derived") && origin(ctxof(c.arg0), "ctx:derived") && origin(ctxof(ctxof(c.arg0)), "field:kvElection.ctx")
